@@ -42,6 +42,12 @@ def run(ctx):
                     ctx.add_broken("correspondence: model and regex ast.Parse disagree on the outcome for %r" % p, "impl=%s model=%s" % (oa, om))
             continue
         stats["accepted"] += 1
+        if om[0] == "FUEL":
+            ctx.add_broken("the model of ToDFA's loop ran out of fuel (2^positions + 1 states): the hypothesis of C10_dfa is not met for %r" % p, am[:300])
+            continue
+        if om[0] == "OK" and " spined=1" not in am:
+            ctx.add_broken("the pattern the mapper model builds for %r is not made of item lists: the hypothesis of C10_dfa_documented is not met" % p, am[:300])
+            continue
         if s == "TOOBIG" or om[0] != "OK":
             stats["oracle_too_big"] += 1
             continue
